@@ -63,7 +63,11 @@ func init() {
 					tiers = "thorough"
 				}
 				harn.Register(harn.Scenario{Property: "C14", Name: fmt.Sprintf("remote-%s-%s-%s", rel, kind, fault), Tiers: tiers, Run: func(c *harn.Ctx) *harn.Result {
-					return harn.Explore(c, harn.Sched{QuickBound: 1, ThoroughBound: 2, Preempt: false, Cache: true, HorizonS: 30, Body: netBody(netOpts{}, func(nw *NetWorld) {
+					qb, tb := 1, 2
+					if kind == "node" && fault == "cut" {
+						qb, tb = 2, 3 // the request must land inside the unregistration of the connection, after the cut: two deviations
+					}
+					return harn.Explore(c, harn.Sched{QuickBound: qb, ThoroughBound: tb, Preempt: false, Cache: true, HorizonS: 30, Body: netBody(netOpts{}, func(nw *NetWorld) {
 						nw.b.ex.Data["kind"] = kind
 						t := nw.b.spawnTarget("T", "tname", "tev")
 						o := remoteObserver(nw.a, "L")
